@@ -4,7 +4,7 @@
 //@ assume: T6: `.ok_or_else(|| E)` => `.ok_or(E)` (E is a plain enum value: eager construction is unobservable); `bitmap.map(closure).unwrap_or(true)` => opt_map_bitmap(bitmap, env).unwrap_or(true) with the REAL closure body verified as the lifted function leaf_required (T7); `(l, r).hash_with_index(p)` => hash_pair(l, r, p); `pmmr::peaks(..).into_iter().filter(|&pos0| pos0 >= first && pos0 <= last).rev()` => peaks_in_range_rev (abstract: some list of positions <= last); `for pos0 in peaks` => slice iterator form; `for pos0 in first..=last` => `first..last + 1` (last < mmr_size < 2^63, so no overflow; this verifier leaves the loop variable of an inclusive range unconstrained); `hash.map(Some).ok_or(E)` => the equivalent match
 //@ assume: assumed precondition: 1 <= mmr_size < 2^63
 //@ assume: decided here (C16, 'omitting a leaf the bitmap marks unspent makes validation fail'), for ANY segment contents received from a peer: Segment::root never panics / overflows / indexes out of range, and it returns Ok ONLY IF, for every leaf position p in the segment's range that is REQUIRED -- the MMR is not prunable (no bitmap), or the bitmap has the leaf's index or its sibling's index set, or p is the last position of the MMR -- the segment carries an entry for p in leaf_pos (the closure computing 'required' is verified verbatim: idx = n_leaves(p+1)-1, sibling index = idx+1 for a left sibling and idx-1 for a right one). It returns Ok(None) only for a prunable MMR (this discharges, for this unit's text, the assumption C16/first_unpruned_parent makes about root). That the returned hash is the Merkle root of those leaves is NOT decided here (bounded Kani harness in C11/C16 covers small shapes).
-//@ assumed_items: 8
+//@ assumed_items: 9
 //@ fns: Segment::root, closure in Segment::root, Segment::get_hash
 //@ include: ../C07/pmmr_arith.verus.rs
 #[derive(Clone, Copy, PartialEq, Eq)]
@@ -27,6 +27,10 @@ impl Bitmap {
     pub uninterp spec fn has(&self, idx: u32) -> bool;
     #[verifier::external_body]
     pub fn contains(&self, idx: u32) -> (r: bool) ensures r == self.has(idx) { unimplemented!() }
+    /// number of set bits in [range.start, range.end): positive iff some index in the range is set
+    #[verifier::external_body]
+    pub fn range_cardinality(&self, range: std::ops::Range<u32>) -> (r: u64)
+        ensures (r > 0) == (exists|i: u32| range.start <= i < range.end && #[trigger] self.has(i)) { unimplemented!() }
 }
 pub open spec fn sp_height(pos0: u64) -> u64 { ht(pos0 as nat, 64) as u64 }
 pub open spec fn sp_n_leaves(size: u64) -> u64 { lb(size as nat, 64) as u64 }
